@@ -28,6 +28,10 @@ def substitute(cond, doc):
     def res(a):
         if isinstance(a, PathT):
             return a.build().get_data(copy_value(doc), return_paths=False)
+        if isinstance(a, list) and any(isinstance(x, PathT) for x in a):
+            return [res(x) if isinstance(x, PathT) else x for x in a]
+        if isinstance(a, dict) and any(isinstance(x, PathT) for x in a.values()):
+            return {k: (res(x) if isinstance(x, PathT) else x) for k, x in a.items()}
         return a
     try:
         return Leaf(cond.cls, cond.method, [res(a) for a in cond.args], {k: res(a) for k, a in cond.kwargs.items()})
@@ -39,22 +43,28 @@ def run(tier, seed, model_ok, spec_ok, replay=None):
     g = Gen(seed)
     rg = RuleGen(CondGen(g))
     n = 500 if tier == "quick" else 12000
-    cases, direct, ndirect = [], [], 0
+    cases, direct, ndirect, nested_n = [], [], 0, 0
     for _ in range(n):
         doc = g.document(4, 4)
         rt = rg.rule(doc, cast_p=0.0, path_args_p=1.0)
-        c = c05.make_case(rt, doc)
-        if not c:
-            continue
-        cases.append(c)
+        try:
+            c = c05.make_case(rt, doc)
+        except E.Unencodable:
+            c = None      # a path inside a list / mapping argument: outside the model's argument type, direct oracle only
+        if c:
+            cases.append(c)
+            out = c.outcome
+        else:
+            out = E.run_outcome(lambda: c05.impl_rule_test(rt, copy_value(doc)))
+            nested_n += 1
         lit = substitute(rt.cond, doc)
-        if lit is not None and c.outcome[0] == "ok":
+        if lit is not None and out[0] == "ok":
             o2 = E.run_outcome(lambda: c05.impl_rule_test(RuleT(rt.path, lit, []), copy_value(doc)))
             ndirect += 1
-            if o2 != c.outcome:
+            if o2 != out:
                 direct.append({"kind": "direct", "what": "rule with a path argument differs from the rule with the resolved literal",
                                "rule": rt.descr()[:400], "literal_rule": lit.descr()[:300], "doc": jval(doc),
-                               "with_path": repr(c.outcome)[:300], "with_literal": repr(o2)[:300]})
+                               "with_path": repr(out)[:300], "with_literal": repr(o2)[:300]})
     k_bad, o_bad, nk, no, err = run_passes("c17", IMPORTS, cases, model_ok, spec_ok)
     res = c05.summarise(cases, k_bad, o_bad, nk, no, err,
                         "rules whose condition has one leaf argument (positional or keyword) replaced by a document-guided data "
